@@ -7,6 +7,7 @@ import (
 	"os"
 	"strings"
 	"sync"
+	"sync/atomic"
 	"testing"
 	"testing/synctest"
 	"time"
@@ -35,9 +36,11 @@ const (
 	tLC   = 'L' // local Close
 	tEOFd = 'e' // the rest of the message in progress (or the next whole message) and EOF in the same Read
 	tERRd = 'r' // ... and a read error in the same Read
+	tPANIC = 'P' // the handler of the next whole message panics (recovered by the library, connection closed)
+	eW     = 'W' // a write that hits a temporary transport error and is resumed (the connection stays up)
 )
 
-const c14Terms = "ERBTLer"
+const c14Terms = "ERBTLerP"
 
 func isTermination(e byte) bool { return strings.IndexByte(c14Terms, e) >= 0 }
 
@@ -111,12 +114,22 @@ func runC14(c *ev.Case, ctx *lib.Ctx, order string, waits bool, lc *logCapture) 
 		}
 	}
 	mc := memnet.NewConn()
+	var failNext atomic.Bool
+	mc.Script = func(seq int, b []byte) memnet.Outcome {
+		if failNext.CompareAndSwap(true, false) {
+			return memnet.Outcome{Accept: 7, Err: &memnet.TempError{Msg: "temporary transport error"}, StallAt: -1}
+		}
+		return memnet.Outcome{Accept: -1, StallAt: -1}
+	}
 	ns := &notifySet{}
 	var hmu sync.Mutex
 	var handled []uint32
 	armed := 0
 	var conn diam.Conn
 	h := diam.HandlerFunc(func(dc diam.Conn, m *diam.Message) {
+		if m.Header.HopByHopID == 0xDEAD {
+			panic("handler blew up")
+		}
 		hmu.Lock()
 		handled = append(handled, m.Header.HopByHopID)
 		k := armed
@@ -154,6 +167,20 @@ func runC14(c *ev.Case, ctx *lib.Ctx, order string, waits bool, lc *logCapture) 
 			hmu.Unlock()
 		case eNo, eNt:
 			ns.add(conn.(diam.CloseNotifier).CloseNotify())
+		case eW:
+			// the first transport Write accepts 7 bytes and reports a temporary error
+			failNext.Store(true)
+			wm := diam.NewMessage(8388000, diam.RequestFlag, 0, 77, 78, ctx.Parser)
+			if _, werr := wm.WriteToWithRetry(conn, 2); werr != nil {
+				c.Fail(sig("setup"), nil, nil, "WriteToWithRetry after a temporary error: %v", werr)
+				return
+			}
+		case tPANIC:
+			if r := delivered % c14MsgLen; r != 0 {
+				mc.Feed(stream[delivered : delivered+c14MsgLen-r])
+				delivered += c14MsgLen - r
+			}
+			mc.Feed(seqMsg(0xDEAD, 12))
 		case tEOF:
 			mc.FeedEOF()
 		case tERR:
@@ -231,8 +258,8 @@ func runC14(c *ev.Case, ctx *lib.Ctx, order string, waits bool, lc *logCapture) 
 		c.Fail(sig("message-log"), nil, nil, "ordering %q: the handler saw messages %v, but %d message(s) were completely delivered before the termination", order, got, want)
 		return
 	}
-	if logs := lc.String()[before:]; strings.Contains(logs, "panic serving") {
-		c.Fail(sig("reader-panic"), nil, nil, "ordering %q: the connection's goroutine panicked: %s", order, logs[:min(len(logs), 500)])
+	if logs := lc.String()[before:]; strings.Contains(logs, "panic serving") != strings.Contains(order, "P") {
+		c.Fail(sig("reader-panic"), nil, nil, "ordering %q: log says: %s", order, logs[:min(len(logs), 500)])
 		return
 	}
 	if mc.CloseCount() == 0 {
@@ -268,6 +295,9 @@ func c14Orderings(maxF, maxN int) []string {
 		if n < maxN {
 			pre(cur+"h", f, n+1)
 			pre(cur+"o", f, n+1)
+		}
+		if !strings.Contains(cur, "W") && len(cur) < 4 {
+			pre(cur+"W", f, n)
 		}
 	}
 	pre("", 0, 0)
